@@ -198,31 +198,25 @@ fn deserialize<'a>(ty: &OwnedDataModelType, data: &'a [u8]) -> Result<(Value, &'
             }
             Ok((Value::Array(vec), rest))
         }
+        // A tuple struct with exactly one field is a newtype to serde: single item, NOT an array
+        OwnedDataModelType::Struct {
+            name: _,
+            data: OwnedData::Tuple(tys),
+        } if tys.len() == 1 => deserialize(&tys[0], data),
         OwnedDataModelType::Tuple(tys)
         | OwnedDataModelType::Struct {
             name: _,
             data: OwnedData::Tuple(tys),
         } => {
-            match &tys[..] {
-                [] => {
-                    // TODO: Not sure this is right...
-                    Ok((Value::Null, data))
-                }
-                [ty] => {
-                    // Single item, NOT an array
-                    deserialize(ty, data)
-                }
-                multi => {
-                    let mut vec = vec![];
-                    let mut rest = data;
-                    for ty in multi.iter() {
-                        let (val, irest) = deserialize(ty, rest)?;
-                        rest = irest;
-                        vec.push(val);
-                    }
-                    Ok((Value::Array(vec), rest))
-                }
+            // Plain tuples and arrays are JSON arrays whatever their arity: `()`-like is `[]`, `(5,)` is `[5]`
+            let mut vec = vec![];
+            let mut rest = data;
+            for ty in tys.iter() {
+                let (val, irest) = deserialize(ty, rest)?;
+                rest = irest;
+                vec.push(val);
             }
+            Ok((Value::Array(vec), rest))
         }
         OwnedDataModelType::Map { key, val } => {
             // TODO: impling blind because we can't test this, oops
@@ -282,7 +276,14 @@ fn deserialize<'a>(ty: &OwnedDataModelType, data: &'a [u8]) -> Result<(Value, &'
                 }
                 OwnedData::Tuple(vec) => {
                     // everything else becomes an object with one field
-                    let (val, irest) = deserialize(&OwnedDataModelType::Tuple(vec.clone()), rest)?;
+                    // same convention as a tuple struct: exactly one field is a newtype
+                    let (val, irest) = deserialize(
+                        &OwnedDataModelType::Struct {
+                            name: schema.name.clone(),
+                            data: OwnedData::Tuple(vec.clone()),
+                        },
+                        rest,
+                    )?;
                     let mut map = Map::new();
                     map.insert(schema.name.to_owned().to_string(), val);
                     Ok((Value::Object(map), irest))
